@@ -498,7 +498,8 @@ def handle (j : J) : J :=
   | some "hstore" =>
     match j.getStr? "cfg", (j.getArr? "ops").bind (·.mapM uopOfJ) with
     | some cfg, some ops =>
-      let c := if cfg == "perhandle" then HCfg.fixed else HCfg.head
+      let c := if cfg == "perhandle" then HCfg.fixed
+               else if cfg == "perhandle-append" then HCfg.fixedAppend else HCfg.head
       .obj [("outs", .arr (runUser c HSt.empty [] ops))]
     | _, _ => bad "hstore"
   | some "typed_dict" =>
